@@ -94,7 +94,9 @@ func (e *Exec) loadAddr(st *State, a *Addr) Val {
 	case aElem:
 		n, srt := e.seqArr(a.ft)
 		s := e.sel(st, n, srt, a.base)
-		return e.elemFromTerm(sx("select", s, a.idx), a.ft, st)
+		ev := e.elemFromTerm(sx("select", s, a.idx), a.ft, st)
+		ev.Shared = a.shared
+		return ev
 	case aLocal:
 		la := st.larr[a.larr]
 		if la == nil {
@@ -226,7 +228,7 @@ func (e *Exec) execInstr(fr *Frame, st *State, in ssa.Instruction) bool {
 			return true
 		}
 		e.safety(fr, st, in, "index", sAnd(sx("<=", "0", idx), sx("<", idx, e.seqLen(st, xv.t()))), "index out of range")
-		fr.addrs[x] = &Addr{kind: aElem, base: xv.t(), idx: idx, ft: sl.Elem()}
+		fr.addrs[x] = &Addr{kind: aElem, base: xv.t(), idx: idx, ft: sl.Elem(), shared: xv.Shared}
 		return true
 	case *ssa.Index:
 		// array value or string index
